@@ -45,4 +45,12 @@ theorem gen_rule_types :
 theorem gen_digest_covers_qualified_name :
     Caco3Loader.digestNames ≠ [] ∧ ∀ d ∈ Caco3Loader.digestNames, d.2.2 = "qualified" := by decide
 
+/-- reading one build file terminates (the model treats a file as a finite list of declarations):
+    jsonx's recovery consumes a token for every error, also beyond the cap of the error list —
+    `ErrorList.Add` goes to jail before the cap check, `parseSeries` skips the statement after a
+    failed type name, `SkipErrStmt` advances -/
+theorem gen_parse_recovery_consumes :
+    Caco3Loader.errorJailBeforeCap = true ∧ Caco3Loader.parseSeriesSkipsBadStatement = true ∧
+    Caco3Loader.skipErrStmtAdvances = true := by decide
+
 end PubModel.C11
